@@ -121,13 +121,13 @@ int main(int argc, char **argv) {
     std::vector<std::string> samples;
 
     uint64_t total_units; vr::Runner::Work work;
-    auto text_case = [&](const Text &t) {
-        std::string txt = render(t);
+    auto text_case2 = [&](const Text &t, const std::string &txt) {
         std::string lines, comments;
         for (auto &l : t.lines) { lines += (lines.empty() ? "" : ",") + std::string(1, l.kind) + "." + std::to_string(l.u) + "." + std::to_string(l.v) + "." + std::to_string(l.wi); }
         for (size_t i = 0; i < t.comments.size(); ++i) comments += (i ? "." : "") + std::to_string(t.comments[i]);
         return "n=" + std::to_string(t.n) + ";dm=" + std::to_string(t.decl_m) + ";nl=" + (t.final_newline ? "1" : "0") + ";lines=" + lines + ";comments=" + comments + ";dimacs_hex=" + hex(txt);
     };
+    auto text_case = [&](const Text &t) { return text_case2(t, render(t)); };
     if (mode == "reader") {
         // unit = (n, number of lines l, first line spec) ; inside: remaining lines x comments x newline
         uint64_t per_line = 2ull * nv * nv * nw;
@@ -165,6 +165,44 @@ int main(int argc, char **argv) {
         samples.push_back(render(s1));
         Text s2; s2.n = 2; s2.decl_m = 1; s2.lines = {{'e', 1, 4, 3}}; s2.comments = {0, 0, 0}; s2.final_newline = true;
         samples.push_back(render(s2));
+    } else if (mode == "longlines") {
+        // One line of the text is stretched to EVERY length below the reader's 1024-byte buffer: a comment ('c' or '#') at each
+        // of the four positions, or an edge line whose decimal weight is padded with zeros (first / middle / last edge line).
+        // Lengths: 1..1022 characters followed by a newline, and for a final line without newline up to 1023 characters.
+        struct U { int what; int nl; };       // what: 0..3 comment position with 'c', 4..7 with '#', 8..10 padded edge line 0..2
+        std::vector<U> units; for (int w = 0; w <= 10; ++w) for (int nl = 0; nl < 2; ++nl) units.push_back({w, nl});
+        total_units = units.size();
+        work = [=, &R](uint64_t ui, uint64_t) {
+            const U &u = units[(ui + seed) % units.size()];
+            Text t; t.n = 3; t.decl_m = 3; t.lines = {{'e', 1, 2, 3}, {'a', 2, 3, 3}, {'e', 1, 3, 3}}; t.comments = {0, 0, 0, 0, 0}; t.final_newline = u.nl;
+            if (u.what >= 8) t.lines[(u.what - 8 + 1) % 3].wi = 0;       // a neighbouring edge line has its weight omitted
+            for (int C = 1; C <= 1023; ++C) {
+                std::vector<std::string> L = {"p edge 3 3", "e 1 2 2.5", "a 2 3 2.5", "e 1 3 2.5"};
+                for (int i = 0; i < 3; ++i) if (t.lines[i].wi == 0) L[i + 1] = L[i + 1].substr(0, 5);
+                int long_idx;
+                if (u.what < 8) {
+                    int pos = u.what % 4; char k = u.what < 4 ? 'c' : '#';
+                    std::string c(1, k); if (C >= 2) c += ' '; while ((int) c.size() < C) c += (c.size() % 7 == 0 ? 'e' : c.size() % 5 == 0 ? ' ' : '1');
+                    int at = pos == 0 ? 0 : pos == 1 ? 1 : pos == 2 ? 3 : 4;
+                    L.insert(L.begin() + at, c); long_idx = at;
+                } else {
+                    long_idx = 1 + (u.what - 8);
+                    if (C < (int) L[long_idx].size()) continue;
+                    while ((int) L[long_idx].size() < C) L[long_idx] += '0';
+                }
+                bool long_is_last = long_idx == (int) L.size() - 1;
+                if (C == 1023 && !(long_is_last && !u.nl)) continue;      // 1023 characters + newline would not be "shorter than the buffer"
+                std::string txt; for (size_t i = 0; i < L.size(); ++i) { txt += L[i]; if (i + 1 < L.size() || u.nl) txt += "\n"; }
+                std::string cs = text_case2(t, txt) + ";longline=" + std::to_string(C);
+                R.crumb_text(cs);
+                std::string cls, err = check_text(t, txt, cls);
+                R.crumb_done();
+                R.count(C_EVAL); R.count(C_NONTRIV);
+                if (!err.empty()) R.violation({"read_dimacs_from_file", cls, cs, err + " :: one line of the text has " + std::to_string(C) + " characters"});
+            }
+        };
+        samples.push_back("p edge 3 3 / c <1022 characters> / e 1 2 2.5 / a 2 3 2.5 / e 1 3 2.5");
+        samples.push_back("p edge 3 3 / e 1 2 2.5 / a 2 3 / e 1 3 2.5000...0 (1023 characters, no final newline)");
     } else {
         int ME = (int) A.geti("max-edges", 3);
         // unit = (n, edge count, first edge); inside: remaining edges x weights
